@@ -2,7 +2,9 @@
 (* Trace validation for C07 (batched, DESIGN 2.2).                             *)
 (*                                                                             *)
 (* Structure traces: build / write / read / write2 / read2 [/ edit / write /   *)
-(* read ...] events recorded                                                   *)
+(* read ...] events recorded, interleaved with history events (unrelated calls *)
+(* of the public API, stuttering steps) and reread events (the same text read  *)
+(* once more: must give the same object)                                       *)
 (* from real dumps_mol2 / loads_mol2 / loads_all_mol2 calls.  Each event is    *)
 (* the corresponding Do* step of Mol2Text with the OBSERVED outcome, and the   *)
 (* step is a step of the specification only if the contract of Mol2Text holds  *)
@@ -30,7 +32,7 @@ Selected == /\ On("WriteSucceeds", WriteSucceeds) /\ On("Accepted", Accepted)
             /\ On("AtomsPreserved", AtomsPreserved) /\ On("LabelsPreserved", LabelsPreserved)
             /\ On("CoordsPreserved", CoordsPreserved) /\ On("ChargesPreserved", ChargesPreserved)
             /\ On("BondsPreserved", BondsPreserved) /\ On("TextFixedPoint", TextFixedPoint)
-            /\ On("ReadStable", ReadStable)
+            /\ On("ReadStable", ReadStable) /\ On("RereadSame", RereadSame)
 
 TBuild  == Ev.ev = "build"  /\ DoBuild(Ev.obj)
 TWrite  == Ev.ev = "write"  /\ DoWrite(Ev.res)
@@ -38,6 +40,8 @@ TRead   == Ev.ev = "read"   /\ DoRead(Ev.res)
 TWrite2 == Ev.ev = "write2" /\ DoWrite2(Ev.res)
 TRead2  == Ev.ev = "read2"  /\ DoRead2(Ev.res)
 TEdit   == Ev.ev = "edit"   /\ DoEdit(Ev.obj)       \* the same real object, edited, as seen through its accessors
+TReread == Ev.ev = "reread" /\ DoReread(Ev.res)     \* the same first text read once more
+THistory == Ev.ev = "history" /\ UNCHANGED vars     \* unrelated calls of the public API: a stuttering step, wherever it occurs
 TAtype  == /\ Ev.ev = "atype"
            /\ On("AtomTyping", AtomTypingContract(Ev.el, Ev.tok, Ev.res, Ev.tok2))
            /\ IF Ev.tok = EmitAtom([el |-> Ev.el, at |-> Ev.at, g |-> Ev.g]) THEN TRUE
@@ -50,11 +54,11 @@ TBtype  == /\ Ev.ev = "btype"
            /\ UNCHANGED vars
 
 Step == /\ ti <= NT /\ l <= Len(Tr)
-        /\ (TBuild \/ TWrite \/ TRead \/ TWrite2 \/ TRead2 \/ TEdit \/ TAtype \/ TBtype)
+        /\ (TBuild \/ TWrite \/ TRead \/ TWrite2 \/ TRead2 \/ TEdit \/ TReread \/ THistory \/ TAtype \/ TBtype)
         /\ Selected'                                  \* every clause holds after the observed step
         /\ l' = l + 1 /\ ti' = ti
 
-Reset == /\ edits' = 0 /\ pend' = NoPend /\ rec' = NoRec /\ phase' = 0 /\ obj' = NoObj /\ text' = Nothing /\ back' = Nothing
+Reset == /\ again' = Nothing /\ hist' = FALSE /\ edits' = 0 /\ pend' = NoPend /\ rec' = NoRec /\ phase' = 0 /\ obj' = NoObj /\ text' = Nothing /\ back' = Nothing
          /\ text2' = Nothing /\ back2' = Nothing /\ last' = [act |-> "init"]
 NextTrace == ti' = ti + 1 /\ l' = 1 /\ Reset
 Finish == /\ ti <= NT /\ l = Len(Tr) + 1
@@ -70,6 +74,6 @@ TraceSpec == TraceInit /\ [][TraceNext]_tvars
 Empty == {}
 NoSeq == <<>>
 AllClauses == {"WriteSucceeds", "Accepted", "ConformersPreserved", "NamePreserved", "AtomsPreserved", "LabelsPreserved",
-               "CoordsPreserved", "ChargesPreserved", "BondsPreserved", "TextFixedPoint", "ReadStable",
+               "CoordsPreserved", "ChargesPreserved", "BondsPreserved", "TextFixedPoint", "ReadStable", "RereadSame",
                "AtomTyping", "BondTyping"}
 =============================================================================
